@@ -28,7 +28,7 @@ ALIGN_NEG = 0  # Text.align pads by a negative excess (text wider than the width
 RSTRIP_END_CHARS = 0  # 1 = as found: Text.rstrip_end compares the CHARACTER count with the cell width; 0 = fix f5f2be9 (in /repo now; was
 #                       pending_fixes/C08-rstrip-end-counts-cells.diff) makes it cell_len; separate request argument of text_rstrip_end, Lean: first argument of Text.rstripEndW
 RSTRIP_END_CHARS = int(__import__("os").environ.get("VERIF_C05_RSTRIP_END_CHARS", RSTRIP_END_CHARS))  # development aid, as VERIF_C05_FLAGS
-SPLIT_ENDSWITH = 1  # Text.split drops the last line when text.endswith(separator) - for a separator that overlaps itself ("aaa".split("aa")) that
+SPLIT_ENDSWITH = 0  # Text.split drops the last line when text.endswith(separator) - for a separator that overlaps itself ("aaa".split("aa")) that
 #                     line is not blank and characters are lost; 0 = pending_fixes/C05-split-overlapping-separator.diff (drop it when it is blank).
 #                     Separate request argument of text_split, Lean: first argument of Text.splitW
 SPLIT_ENDSWITH = int(__import__("os").environ.get("VERIF_C05_SPLIT_ENDSWITH", SPLIT_ENDSWITH))  # development aid
@@ -665,6 +665,9 @@ def step(sink, t, r, op, first=False):
     raise AssertionError("unknown op " + repr(op))
 
 
+NEW_OBJECT_OPS = {"add", "copy", "slice", "slice_step", "index", "divide", "split", "fit", "join_sep", "join_in", "assemble", "indent_guides"}
+
+
 def run_history(sink, spec, ops):
     """run a history; raises Failure at the first step whose result differs from the reference."""
     from rich.text import Span, Text
@@ -687,6 +690,8 @@ def run_history(sink, spec, ops):
             t, r = step(sink, t, r, op)
         except Stop:
             return
+        if t is prev and op[0] in NEW_OBJECT_OPS:
+            raise Failure(op[0] + " returned the text it was called on", None, "the operation is documented to return a new Text; it handed back (and edited) its receiver")
         if t is not prev:
             # the operation returned a new object: the one it was called on must be untouched, and stays observed
             now = L.enc_text(prev)
@@ -897,42 +902,43 @@ def replay(ctx, case):
 
 
 MANIFEST = {
-    "text": "Lean 4 theorems (Props/C05.lean, 43 obligations; no bound on string length, number of spans or number of operations) about a "
-    "statement-by-statement model of rich/text.py (Model/Text.lean: Span, Text with the separately stored _length, every mutator, "
-    "divide, render's event sort + style-id stack) and of control.strip_control_codes (table re-translated from rich/control.py every run). "
+    "text": "Lean 4 theorems (Props/C05.lean, 48 obligations, none partial; no bound on string length, number of spans or number of "
+    "operations) about a statement-by-statement model of rich/text.py (Model/Text.lean: Span, Text with the separately stored _length, every "
+    "mutator, divide, split, slices incl. step, expand_tabs, render's event sort + style-id stack, remove_suffix, fit, __add__, "
+    "detect_indentation, with_indent_guides) and of control.strip_control_codes (table re-translated from rich/control.py every run). "
     "(1) render_view: for every consistent text render() raises nothing and its (character, combined style names) stream IS the reference "
-    "semantics view(t) = each character under the base style then the covering spans in span order - proved for the event-sort/stack "
-    "algorithm as written, for any sorted arrangement of the events. (2) The state invariant Inv (len() = len(plain), no strippable control "
-    "code, every span 0 <= start <= end <= len) holds after construction for every string and is preserved by every operation - append(str), "
-    "append(Text), append_text, stylize, copy_styles/highlighters, plain setter, pad_left, pad_right, right_crop, set_length, copy, "
-    "blank_copy, text[i], rstrip, truncate, align, join, assemble, divide, text[a:b], split(char), expand_tabs - and hence by every history "
-    "(inv_history_all). (3) Per-operation refinement view(op t) = <list operation>(view t): characters, order and the ordered style list of "
-    "every survivor, for all of these except the three marked partial; styling-only operations never change characters or len(). Seven "
-    "defects of rich 9.10.0 as found are carried as variant flags (the six fields of Variant + the rstrip_end flag `chars`; `true` = as found) with "
-    "machine-checked witnesses (old_* theorems; the rstrip_end one is C02's old_wrap_ellipsis_drops_fitting_char / C08's "
-    "old_rule_short_after_rstrip); all seven are repaired in /repo (fixes 0149e10, ba4c9a6, 3a84457, b5c0e99, aad03fe, 9ca68f6, f5f2be9) and "
-    "every flag constant holds the repaired value 0. "
-    "Tie: 27 driver entry points compared state-by-state (plain, _length, spans, style, attributes and the render() segments) with real "
-    "rich.text.Text objects on ~110k (quick) / ~1M (thorough) generated requests per run; independently a reference styled string undergoes "
+    "semantics view(t) = each character under the base style then the covering spans in span order. (2) The state invariant Inv (len() = "
+    "len(plain), no strippable control code, every span 0 <= start <= end <= len) holds after construction for every string and is preserved "
+    "by every operation and hence by every history (inv_history_all). (3) Per-operation refinement view(op t) = <list operation>(view t) - "
+    "characters, order and the ordered style list of every survivor - for construction, copy, append*, plain setter, pad*, right_crop, "
+    "set_length, text[i], text[a:b] for ALL bounds (and the ValueError/TypeError behaviour for a step), rstrip, truncate, align, join, "
+    "assemble, divide, split at piece level for EVERY non-empty separator with both flags both ways (cut points = leftmost non-overlapping "
+    "occurrences), expand_tabs with the exact blank arithmetic (tab -> ts - col % ts blanks, first in the tab's style, multi-line), stylize "
+    "(exact slice semantics), copy_styles / highlighters; styling-only operations never change characters or len(). Eight defects of rich "
+    "9.10.0 are carried as variant flags with machine-checked witnesses (old_* theorems); seven are repaired in /repo, the eighth "
+    "(split with a self-overlapping separator) has pending_fixes/C05-split-overlapping-separator.diff. "
+    "Tie: 33 driver entry points compared state-by-state (plain, _length, spans, style, attributes and the render() segments) with real "
+    "rich.text.Text objects on ~130k (quick) / ~1M (thorough) generated requests per run; independently a reference styled string undergoes "
     "'the same operation on an ordinary string' and is compared with plain / len() / render() after every step of every history "
-    "(bounded-exhaustive single operations with arguments inside, at and beyond both ends + seeded random histories of 1..12 operations "
-    "over 27 operation kinds, shrunk on failure); every earlier object of a history (receivers, operands, sibling pieces) is re-observed "
-    "after every later step, so aliasing between a text and its copies/pieces is visible.",
-    "note": "PARTIAL: get_slice_view_partial (bounds normalising to stop < start not proved), split_view_partial (single-character separator, "
-    "include_separator=True, concatenation-level), expand_tabs_view_partial (invariant + non-whitespace characters and styles; the column "
-    "arithmetic of the blanks is compared with rich and with an expandtabs-like oracle, not proved). divide_view / split_char_spec / "
-    "expandTabs_ink' are proved in Lemmas/WrapDivide.lean and Lemmas/WrapTabs.lean (built by property C02 on this model) and imported. "
-    "rstrip_end's amount (characters = rich 9.10.0 as found, `chars = true`; cells = fix f5f2be9, what /repo does now, `chars = false`; flag "
-    "RSTRIP_END_CHARS / first argument of Text.rstripEndW) is "
-    "pinned by model-vs-code only; C05's oracle checks that only trailing whitespace goes. "
+    "(bounded-exhaustive single operations with arguments inside, at and beyond both ends + all strings <= 4 over the indentation alphabet + "
+    "seeded random histories of 1..12 operations over 31 operation kinds, shrunk on failure); every earlier object of a history (receivers, "
+    "operands, sibling pieces) is re-observed after every later step and operations documented to return a new Text must not return their "
+    "receiver, so aliasing is visible.",
+    "note": "split_view is about Text.splitW false (the repaired last-line rule); split_released_eq_repaired proves that today's code "
+    "(SPLIT_ENDSWITH = 1) is the same function for every separator that does not overlap itself (all that rich itself uses); for a "
+    "self-overlapping separator today's code loses characters (old_split_overlapping_separator, finding split-overlapping-separator). "
+    "fit, with_indent_guides and detect_indentation are modelled and compared (model-vs-code and against an independent oracle), they have no "
+    "theorem. divide_view is proved in Lemmas/WrapDivide.lean (built by property C02 on this model) and imported, as are two helper lemmas "
+    "about one-character separators. rstrip_end's amount (RSTRIP_END_CHARS / Text.rstripEndW) is pinned by model-vs-code only. "
     "Trusted: Lean kernel; axioms propext/Classical.choice/Quot.sound; translator harness/gen/text_tables.py (STRIP_CONTROL_CODES, and "
     "the running CPython's str.isspace set, cross-checked against regex \\s and str.rstrip); the correspondence harness; "
     "_text fragments are abstracted to their concatenation; styles are opaque names and 'same effective style' in the direct evaluation is "
-    "judged in the free right-regular band over names (the laws every field of Style.__add__ obeys: '' identity, s+s=s, x+y+x=y+x) - the "
-    "Lean theorems use the stronger free monoid (exact ordered lists); cell widths are rich.cells' (C13). "
+    "judged in the free right-regular band over names ('' identity, s+s=s, x+y+x=y+x) - the Lean theorems use the stronger free monoid "
+    "(exact ordered lists); cell widths are rich.cells' (C13); regex highlighters are span sources (their spans are checked to be non-empty "
+    "and inside the text, then given to the model). "
     "Domain (outside it only model-vs-code is compared): constructor spans inside the stripped text; counts/widths >= 0; divide offsets "
-    "non-decreasing within the text; split separators without a proper border (rich itself only uses single characters; 'aaa'.split('aa') "
-    "loses a character - reported, not adopted); no strip-control characters through append_tokens / pad character / plain setter (rich does "
-    "not strip there); Text.style is not None; tab size >= 1; negative _length states end a history.",
+    "non-decreasing within the text; no strip-control characters through append_tokens / pad character / plain setter (rich does not strip "
+    "there); Text.style is not None; tab size >= 1; with_indent_guides with a one-character guide and indent_size >= 1; negative _length "
+    "states end a history.",
     "design_ref": "DESIGN.md section 7, C05; pre-finding F1 (section 8)",
 }
